@@ -151,13 +151,14 @@ func (g *g4Grammar) operatorLevels() [][]string {
 // ---------------------------------------------------------------------------------------------- the check
 
 type c17 struct {
-	evDepth int
-	p       *core.Program
-	r       *core.Report
-	ev      *tEval
-	pkg     *ssa.Package
-	g1      *g4Grammar
-	g3      *g4Grammar
+	evDepth      int
+	parsedParams map[*ssa.Parameter]bool // parameters of boolean helpers that are handed excellent.Parse(value)
+	p            *core.Program
+	r            *core.Report
+	ev           *tEval
+	pkg          *ssa.Package
+	g1           *g4Grammar
+	g3           *g4Grammar
 
 	closedNodeTypes map[string]bool // excellent.<Node> types that print as one atom
 	identPreds      map[*ssa.Function]string
@@ -558,15 +559,9 @@ func (c *c17) condEvidence(kind evKind, cond ssa.Value, taken bool, val ssa.Valu
 			if core.RelPkg(n.Obj().Pkg().Path()) != "excellent" {
 				return false, ""
 			}
-			ex, ok := ta.X.(*ssa.Extract)
-			if !ok || ex.Index != 0 {
-				return false, ""
-			}
-			pc, ok := ex.Tuple.(*ssa.Call)
-			if !ok {
-				return false, ""
-			}
-			if o := core.CalleeObj(&pc.Call); o == nil || core.ObjName(o) != "excellent.Parse" || stripIface(pc.Call.Args[0]) != stripIface(val) {
+			if par, isPar := stripIface(ta.X).(*ssa.Parameter); isPar && c.parsedParams[par] && stripIface(val) == ssa.Value(par) {
+				// inside a helper that was handed the parse of the value: its parameter is that parse
+			} else if !c.isParseOf(ta.X, val) {
 				return false, ""
 			}
 			if !c.closedNodeTypes[n.Obj().Name()] {
@@ -602,7 +597,16 @@ func (c *c17) condEvidence(kind evKind, cond ssa.Value, taken bool, val ssa.Valu
 		if f.Blocks != nil && core.FuncPkgPath(f) == c.pkg.Pkg.Path() && c.evDepth < 2 && f.Signature.Results().Len() == 1 {
 			if b, isB := f.Signature.Results().At(0).Type().Underlying().(*types.Basic); isB && b.Kind() == types.Bool {
 				for i, a := range x.Call.Args {
-					if stripIface(a) != stripIface(val) || i >= len(f.Params) {
+					if i >= len(f.Params) {
+						continue
+					}
+					if c.isParseOf(a, val) {
+						// the helper is handed the parse of the value instead of the value
+						if c.parsedParams == nil {
+							c.parsedParams = map[*ssa.Parameter]bool{}
+						}
+						c.parsedParams[f.Params[i]] = true
+					} else if stripIface(a) != stripIface(val) {
 						continue
 					}
 					c.evDepth++
@@ -1903,4 +1907,18 @@ func c17ReturnedXTypes(fn *ssa.Function, depth int) map[string]bool {
 		addVal(ret.Results[0], map[ssa.Value]bool{})
 	}
 	return out
+}
+
+// isParseOf: v is the expression result of excellent.Parse(val, …).
+func (c *c17) isParseOf(v, val ssa.Value) bool {
+	ex, ok := stripIface(v).(*ssa.Extract)
+	if !ok || ex.Index != 0 {
+		return false
+	}
+	pc, ok := ex.Tuple.(*ssa.Call)
+	if !ok {
+		return false
+	}
+	o := core.CalleeObj(&pc.Call)
+	return o != nil && core.ObjName(o) == "excellent.Parse" && stripIface(pc.Call.Args[0]) == stripIface(val)
 }
